@@ -5,9 +5,10 @@ The in-process correspondence drives the renderer packages directly and has to c
 (`cmd/reduce.go` table path, `cmd/bargraph.go`, `cmd/tabulate.go`, …) is under test:
 
 * `rare reduce` (table output): generated group / accumulator expressions of the template language the
-  driver evaluates, generated input lines; stdout (without the two status lines) must equal the lines the
-  Lean model predicts for the same state (`render reduce` through the driver).  Includes group values that
-  contain the array separator (more key parts than group columns: index out of range before 73473fc).
+  driver evaluates, generated input lines (EMPTY group values included), `--sort-reverse`; stdout (without the two status
+  lines) must equal the lines the Lean model predicts for the same state (op `rcli` through the driver).  Includes group
+  values that contain the array separator (more key parts than group columns: index out of range before 73473fc), and two
+  runs whose stdin arrives in two parts 350 ms apart (several frames: the row buffer, seeded change C14-reduce-rowbuf-hoisted).
 * `--format` expressions that read the range: every number `rare bars` / `rare tabulate` print must be the
   aggregated number under the formatter WITH THE RANGE OF THE FINAL STATE (`N of MAX` on every row), whatever
   was formatted before.
@@ -17,7 +18,7 @@ The in-process correspondence drives the renderer packages directly and has to c
   the strictly increasing key list from the minimum to the maximum with the cell of each key.
 * every renderer command on generated inputs with awkward keys and limits: no panic, exit status 0.
 """
-import os, re, subprocess, sys
+import os, re, subprocess, sys, time
 
 sys.path.insert(0, os.path.dirname(__file__))
 from common import build_rare, Rand
@@ -34,7 +35,7 @@ def _hexlist(items):
 
 
 WORDS = ["a", "bb", "ccc", "x1", "héllo", "日本", "0", "42", "-7", "k", "Total", "w" * 23, "é" * 9, "z.z", "A"]
-GROUP_WORDS = ["ka", "kb", "kc", "kd", "ke", "zz", "ab", "abc"]  # plain text: the contextual sort is the byte order
+GROUP_WORDS = ["ka", "kb", "kc", "kd", "ke", "zz", "ab", "abc", "", ""]  # plain text or empty: the contextual sort is the byte order
 GEXPRS = ["{1}", "{1}", "{2}", "{0}", "{0}", "lit", "{1}{2}", "{2}-{1}"]  # no NUL in argv: {0} (the whole array) gives the over-long keys
 DEXPRS = ["{3}", "{.}{3}", "{.}", "{2}", "{0}", "x", "{.}+{4}", "{3}{3}"]
 NAMES = ["g", "k", "name", "n", "sum", "v", "日本", "héllo", "Total", "a b"]
@@ -73,19 +74,25 @@ def run(ctx):
         (["k"], ["{0}"], ["n"], ["{.}{2}"], [["a", "b", "c"], ["a", "b", "d"]], 20, 10),
     ]
     for i in range(n_reduce):
+        rev = False
         if i < len(fixed):
             gn, ge, dn, de, lines, rows, cols = fixed[i]
         else:
             ng, nd = r.intn(4), r.intn(4)
+            if r.intn(2):
+                ng = 1   # one group column: the empty group value is the empty key (no parts)
             gn, dn = distinct(NAMES, ng), distinct(NAMES, nd)
             ge = [r.pick(GEXPRS) if r.intn(2) else "{%d}" % (j + 1) for j in range(ng)]
             de = [r.pick(DEXPRS) for _ in range(nd)]
             lines = [[r.pick(GROUP_WORDS), r.pick(GROUP_WORDS), r.pick(WORDS)] for _ in range(r.intn(9))]
             rows, cols = r.pick([0, 1, 2, 3, 20, 20]), r.pick([0, 1, 2, 10, 10])
+            rev = r.intn(2) == 1
         inp = os.path.join(work, "e2e_reduce.txt")
         with open(inp, "w", encoding="utf-8") as f:
-            f.write("".join(" ".join(l) + "\n" for l in lines))
-        cmd = [exe, "reduce", "--snapshot", "--table", "--initial", "i", "-m", r"^(\S+) (\S+) (\S+)$", "--rows", str(rows), "--cols", str(cols)]
+            f.write("".join(";".join(l) + "\n" for l in lines))
+        cmd = [exe, "reduce", "--snapshot", "--table", "--initial", "i", "-m", r"^([^;]*);([^;]*);([^;]*)$", "--rows", str(rows), "--cols", str(cols)]
+        if rev:
+            cmd.append("--sort-reverse")
         for n, e in zip(gn, ge):
             cmd += ["-g", n + "=" + e]
         for n, e in zip(dn, de):
@@ -104,8 +111,42 @@ def run(ctx):
         if not pool:
             pool = ["x"]
         samples = ",".join(":".join(str(pool.index(w)) for w in l) for l in lines) or "."
-        case = "C14 render reduce 0 %d %d %s %s %s %s %s %s" % (rows, cols, _hexlist(gn), _hexlist(ge), _hexlist(dn), _hexlist(de), _hexlist(pool), samples)
+        case = "C14 rcli %d %d %d %s %s %s %s - %s %s" % (1 if rev else 0, rows, cols, _hexlist(gn), _hexlist(ge), _hexlist(dn), _hexlist(de), _hexlist(pool), samples)
         cases.append((case, p.stdout, cmd[1:], lines))
+
+    # several frames through the unmodified binary: stdin arrives in two parts more than one refresh (100 ms) apart, the empty
+    # group value in the second part (default order: it is the FIRST row of the second frame); cell widths only grow, so the
+    # snapshot does not depend on whether the intermediate frame was really drawn
+    for first, second, rev in ([(["alpha", "1", "x"],), (["", "5", "x"],), False],
+                               [(["kb", "2", "x"], ["", "7", "x"]), (["zz", "1", "x"], ["", "3", "x"]), True]):
+        cmd = [exe, "reduce", "--snapshot", "--table", "--initial", "i", "--batch", "1", "--workers", "1", "-m", r"^([^;]*);([^;]*);([^;]*)$",
+               "-g", "grp={1}", "-a", "total={.}{2}"] + (["--sort-reverse"] if rev else [])
+        pr = subprocess.Popen(cmd, stdin=subprocess.PIPE, stdout=subprocess.PIPE, stderr=subprocess.PIPE)
+        try:
+            pr.stdin.write("".join(";".join(l) + "\n" for l in first).encode("utf-8"))
+            pr.stdin.flush()
+            time.sleep(0.35)
+            pr.stdin.write("".join(";".join(l) + "\n" for l in second).encode("utf-8"))
+            pr.stdin.close()
+            out = pr.stdout.read()
+            err = pr.stderr.read()
+            rc = pr.wait(timeout=60)
+        except Exception as e:  # noqa
+            pr.kill()
+            viol("reduce-cli-failed", argv=cmd[1:], input=[first, second], rc=-1, stderr=str(e))
+            continue
+        runs += 1
+        if rc not in (0, 1) or b"panic:" in err:
+            viol("reduce-cli-failed", argv=cmd[1:], input=[first, second], rc=rc, stderr=err.decode("utf-8", "replace")[-600:])
+            continue
+        pool = []
+        for l in list(first) + list(second):
+            for w in l:
+                if w not in pool:
+                    pool.append(w)
+        ph = "|".join(",".join(":".join(str(pool.index(w)) for w in l) for l in part) for part in (first, second))
+        case = "C14 rcli %d 20 10 %s %s %s %s - %s %s" % (1 if rev else 0, _hexlist(["grp"]), _hexlist(["{1}"]), _hexlist(["total"]), _hexlist(["{.}{2}"]), _hexlist(pool), ph)
+        cases.append((case, out, cmd[1:], [list(first), list(second)]))
     if cases:
         d = subprocess.run([ctx["driver"]], input="".join(c[0] + "\n" for c in cases).encode(), stdout=subprocess.PIPE, timeout=600)
         answers = d.stdout.decode().split("\n")
